@@ -288,6 +288,12 @@ func (b *Bucket) DeleteBucket(key []byte) (err error) {
 		return errors.ErrTxNotWritable
 	}
 
+	// A bucket can't have an empty name (an empty key also "equals" the
+	// nil key a cursor returns in an empty bucket).
+	if len(key) == 0 {
+		return errors.ErrBucketNotFound
+	}
+
 	newKey := cloneBytes(key)
 
 	// Move cursor to correct position.
@@ -360,6 +366,12 @@ func (b *Bucket) MoveBucket(key []byte, dstBucket *Bucket) (err error) {
 	if b.tx.db.Path() != dstBucket.tx.db.Path() || b.tx != dstBucket.tx {
 		lg.Errorf("The source and target buckets are not in the same db file, source bucket in %s and target bucket in %s", b.tx.db.Path(), dstBucket.tx.db.Path())
 		return errors.ErrDifferentDB
+	}
+
+	// A bucket can't have an empty name (an empty key also "equals" the
+	// nil key a cursor returns in an empty bucket).
+	if len(key) == 0 {
+		return errors.ErrBucketNotFound
 	}
 
 	newKey := cloneBytes(key)
